@@ -4,3 +4,8 @@ claimed["C04"] = (
  "All (function-value kind x lifetime) cases and all sets of <=2 producer forms x 3 consumer parameter shapes x 6 lifetime pairings are built on the real container; every constructor invocation's arguments and every identity of a 14-type x 3-key x 2-group universe is compared with the reference registry model. Exhaustive within those bounds, not sampled.",
  "bounds: <=2 producer templates per configuration (21 templates), one consumer; forms outside the template list (e.g. As combined with multiple returns) are not covered",
  "DESIGN.md 6/C04")
+claimed["C13"] = (
+ "stateless schedule exploration of the real code (preemption-bounded DFS with happens-before state caching) + exhaustive sequential history enumeration against a closed-means-closed model",
+ "Every schedule with <=2 (quick) / <=3 (thorough) preemptions of {Close(scope), Close(ancestor), Close(provider), cancel()} || {Get scoped/transient/keyed, GetGroup, CreateScope child, provider.CreateScope, provider.Get} on the real provider, with a happens-before race detector on every execution, followed by retries on every closed object; plus every sequential history to depth 4/5 over create/resolve/close/cancel on <=3 scopes.",
+ "bounds: 2 harness threads + watcher goroutines, preemption bound 2/3, histories to depth 4/5, <=3 scopes; equivalent schedules (same happens-before graph and harness log) are explored once",
+ "DESIGN.md 6/C13")
